@@ -842,11 +842,16 @@ FINISH:
 	// Finally, re-take the lock, mark sent and remove any entries from our
 	// message that we've decided to cancel at the last minute.
 	mq.wllock.Lock()
+	var dropped map[cid.Cid]struct{}
 	for i, e := range peerEntries[:sentPeerEntries] {
 		if !mq.peerWants.markSent(e) {
 			// It changed.
 			mq.msg.Remove(e.Cid)
 			peerEntries[i].Cid = cid.Undef
+			if dropped == nil {
+				dropped = make(map[cid.Cid]struct{})
+			}
+			dropped[e.Cid] = struct{}{}
 		}
 	}
 
@@ -854,6 +859,16 @@ FINISH:
 		if !mq.bcstWants.markSent(e) {
 			mq.msg.Remove(e.Cid)
 			bcstEntries[i].Cid = cid.Undef
+		} else if _, ok := dropped[e.Cid]; ok {
+			// The message holds one entry per CID. The peer want for this CID was
+			// cancelled while the message was being built and took that entry out
+			// above, but the broadcast want (added again since) is still current
+			// and has just been marked as sent: put it back into the message.
+			wantType := pb.Message_Wantlist_Have
+			if !supportsHave {
+				wantType = pb.Message_Wantlist_Block
+			}
+			mq.msg.AddEntry(e.Cid, e.Priority, wantType, false)
 		}
 	}
 
